@@ -497,6 +497,11 @@ fn gen_bridge(mut input: ItemMod) -> ItemMod {
         }
 
         Item::Impl(i) => {
+            // diplomat-tool reads attributes on impl blocks too (attr, abi_rename, ...), throw them away here
+            let info = AttributeInfo::extract(&mut i.attrs);
+            if info.opaque {
+                panic!("#[diplomat::opaque] not allowed on impl blocks")
+            }
             for item in &mut i.items {
                 if let syn::ImplItem::Fn(ref mut m) = *item {
                     let info = AttributeInfo::extract(&mut m.attrs);
